@@ -149,6 +149,33 @@ def restricted_dynamic(b: bytes, sel: int) -> bool:
     return fin(p == len(b) and _to_ref(obj) == _norm(ref))
 
 
+_CNUM = [V.U1, V.U2, V.U4, V.U8, V.I1, V.I2, V.I4, V.I8]
+
+
+def counted_numeric(payload: bytes, k: int, c: int, n: int, dyn: bool) -> bool:
+    """
+    pre: 0 <= k < 8 and 1 <= c <= 3 and 0 <= n <= 4
+    pre: len(payload) == 32
+    post: _
+    """
+    # an item definition that limits the NUMBER of values (count) accepts every format/width with up to that many values -
+    # the limit is on values, not on payload bytes - and refuses more; typed variable and Dynamic restricted to that type
+    cls = pick(_CNUM, k)
+    w = refe5.INT_WIDTH[cls.format_code]
+    body = payload[: n * w]
+    data = bytes(refe5.header(cls.format_code, n * w)) + body
+    want = [refe5.int_value(cls.format_code, list(body[i * w:(i + 1) * w])) for i in range(n)]
+    obj = V.Dynamic([cls], count=c) if dyn else cls(count=c)
+    try:
+        pos = obj.decode(data)
+    except ValueError:
+        return fin(n > c)
+    if n > c:
+        return False
+    got = obj.value.value if dyn else obj.value
+    return fin(pos == len(data) and got == want)
+
+
 def float_lemmas():
     from obligations.C01 import float_lemmas as f
     return f()
@@ -169,6 +196,10 @@ OBLIGATIONS = [
          bounds="every valid byte string of length 2..5, re-encoding == canonical form"),
     dict(name="typed_nonminimal", fn="typed_nonminimal", timeout=600, parts=["nlb == 1", "nlb == 2", "nlb == 3"],
          functions=["typed decode of Binary/Boolean/String/I*/U*"], bounds="1..3 length bytes for 0..2 elements of fresh payload"),
+    dict(name="counted_numeric", fn="counted_numeric", timeout=600, parts=["k < 4", "k >= 4"],
+         functions=["BaseNumber.decode/set with a count limit", "Dynamic.decode with count"],
+         bounds="U1..U8, I1..I8 with count 1..3, 0..4 values of fresh payload bytes, typed variable and restricted Dynamic: accepted with the "
+                "reference value iff the number of values is within the count"),
     dict(name="restricted_dynamic", fn="restricted_dynamic", timeout=600,
          functions=["Dynamic.decode with restricted types"], bounds="3 allowed-type sets (non-list items) and the empty set = all types (incl. lists), every valid byte string of length 2..4"),
     dict(name="float_lemmas", fn="float_lemmas", kind="native", timeout=300,
